@@ -28,7 +28,7 @@ def make(rng):
         committers.append({'oid': 4 + i, 'n': rng.randint(1, 3), 'touch': rng.choice((None, 1, 2))})
     return {'init': init, 'packsec': packsec, 'gc': gc, 'committers': committers, 'reader': rng.randint(2, 6),
             'second_packer': rng.random() < 0.3, 'third_packer': rng.random() < 0.15,
-            'lister': rng.choice((0, 0, 1, 2))}
+            'lister': rng.choice((0, 0, 1, 2)), 'reader2': rng.random() < 0.4, 'pad': rng.choice((0, 0, 9000))}
 
 
 def run(job):
@@ -53,7 +53,8 @@ def run(job):
     order = kw.pop('order', None)
     c = sd.consts('file', NOid=6, MaxTxn=20, MaxRecs=5, MaxClock=8, AtomVals=('v1', 'v2'), RefSets='AllRefs', Cls='MCClsPlain')
     rc = dict(c, Cls=sd.cls_map(c))
-    rp = sd.StorageReplayer('file', rc, workdir, {'fs_kw': {'blob_dir': os.path.join(workdir, 'blobs')}} if scen.get('blob_dir') else {})
+    rp = sd.StorageReplayer('file', rc, workdir, dict({'fs_kw': {'blob_dir': os.path.join(workdir, 'blobs')}} if scen.get('blob_dir') else {},
+                                                      pad=scen.get('pad', 0)))
     out = {'scen': scen, 'seed': seed, 'errors': {}, 'reads': [], 'commits': [], 'outcome': None, 'obs': None, 'obs_reopen': None,
            'pack_outcomes': []}
     try:
@@ -121,7 +122,13 @@ def run(job):
             for _ in range(scen['reader']):
                 o = r.choice((0, 1, 2, 4, 5))
                 try:
-                    data, s = st.load(p64(o), '')
+                    if _ % 2:
+                        data, s = st.load(p64(o), '')
+                    else:
+                        x = st.loadBefore(p64(o), b'\x7f' + b'\xff' * 7)
+                        if x is None:
+                            raise KeyError(o)
+                        data, s = x[0], x[1]
                     out['reads'].append((o, rp.tids.model(s), sd.norm(cz.datum_of(data))['v']))
                 except KeyError:
                     out['reads'].append((o, None, None))
@@ -151,6 +158,8 @@ def run(job):
         for i, spec in enumerate(scen['committers']):
             Sc.spawn('committer%d' % i, committer(spec))
         Sc.spawn('reader', reader)
+        if scen.get('reader2'):
+            Sc.spawn('reader2', reader)          # two loads in flight: more than one file in the read pool
         if scen['second_packer']:
             Sc.spawn('packer2', packer('packer2'))
         if scen.get('third_packer'):
@@ -163,6 +172,14 @@ def run(job):
         if out['outcome'] == 'ok' and not out['errors']:
             try:
                 out['obs'] = observe(rp)
+                # ... and through every other file of the read pool (a pooled file left open on the pre-pack file
+                # is only reached while the ones above it are in use)
+                with st._files.get():
+                    o2 = observe(rp)
+                    with st._files.get():
+                        o3 = observe(rp)
+                if o2 != out['obs'] or o3 != out['obs']:
+                    out['errors']['final-queries'] = 'AssertionError: a pooled read file answers differently from the first one'
                 st.close()
                 rp.open(create=False)
                 out['obs_reopen'] = observe(rp)
